@@ -87,3 +87,104 @@ Proof.
   - rewrite !N.add_0_r. reflexivity.
   - fold (gap (ddt c)). fold (gap (ddq c)). rewrite IH. f_equal. f_equal; f_equal; lia.
 Qed.
+
+(** ---------- the grammar sees a stream only through the classification of its reads ---------- *)
+Lemma spec_sections_classify rs1 : forall rs2 cur idx, map classify rs1 = map classify rs2 ->
+  spec_sections cur idx rs1 = spec_sections cur idx rs2.
+Proof.
+  induction rs1 as [|x r IH]; intros [|y r2] cur idx H; try discriminate; [reflexivity|].
+  cbn [map] in H. injection H as Hx Hr. cbn [spec_sections]. rewrite Hx.
+  destruct (classify y); try reflexivity.
+  - destruct cur; [reflexivity|apply IH; exact Hr].
+  - destruct cur; [reflexivity|apply IH; exact Hr].
+  - destruct cur; [|reflexivity]. destruct (dterm d); [f_equal|]; apply IH; exact Hr.
+Qed.
+Lemma build_reads_classify rs1 rs2 : map classify rs1 = map classify rs2 -> length rs1 = length rs2 -> build_reads rs1 = build_reads rs2.
+Proof.
+  intros H Hl. unfold build_reads, sections_new. rewrite !build_loop_grammar by lia.
+  rewrite (spec_sections_classify rs1 rs2 None 0 H). reflexivity.
+Qed.
+
+(** refined: the next line of a section under construction is a data line and the section extends with it *)
+Lemma spec_sections_extends_next x rest s idx f : spec_sections (Some s) idx (x :: rest) = map Ok f ->
+  exists d more f', classify x = RData d /\ f = {| shdr := shdr s; sdata := sdata s ++ d :: more |} :: f'.
+Proof.
+  cbn [spec_sections]. destruct (classify x) as [|h|d|e t|e]; try (destruct f; discriminate).
+  intros H. exists d. destruct (dterm d).
+  - destruct f as [|s1 f']; [discriminate|]. cbn [map] in H. injection H as H1 H2. exists [], f'. rewrite <- H1. auto.
+  - apply spec_sections_extends in H as (more & f' & -> & _). cbn [shdr sdata]. exists more, f'. rewrite <- app_assoc. auto.
+Qed.
+
+(** ---------- a data line cut to a shorter terminating data line ---------- *)
+Lemma split_nonempty d s : split d s <> [].
+Proof. destruct s as [|b r]; cbn [split]; [discriminate|]. destruct (b =? d); [discriminate|]. destruct (split d r); discriminate. Qed.
+Lemma split_single d s f : split d s = [f] -> f = s /\ ~ In d s.
+Proof.
+  revert f. induction s as [|b r IH]; intros f; cbn [split].
+  - intros [= <-]. split; auto.
+  - destruct (b =? d) eqn:E; [intros H; injection H as _ H2; exfalso; eapply split_nonempty; eauto|].
+    destruct (split d r) as [|f0 fs] eqn:Es; [exfalso; eapply split_nonempty; eauto|].
+    intros [= <- ->]. destruct (IH f0 eq_refl) as [-> Hn]. split; [reflexivity|].
+    intros [H|H]; [subst; rewrite N.eqb_refl in E; discriminate|contradiction].
+Qed.
+Lemma split_prepend d a r : ~ In d a -> split d (a ++ r) = match split d r with f0 :: fs => (a ++ f0) :: fs | [] => [a] end.
+Proof.
+  induction a as [|b a' IH]; intros H; cbn [app].
+  - destruct (split d r) eqn:Es; [exfalso; eapply split_nonempty; eauto|reflexivity].
+  - cbn [split]. destruct (b =? d) eqn:E; [apply N.eqb_eq in E; subst; exfalso; apply H; left; reflexivity|].
+    rewrite IH by (intros Hin; apply H; right; exact Hin). destruct (split d r); reflexivity.
+Qed.
+
+Lemma drec_prefix t' r d d' : parse_drec (t' ++ r) = Ok d -> parse_drec t' = Ok d' -> dterm d' = true -> dsize d' <= dsize d.
+Proof.
+  intros H H' T. unfold parse_drec in H'.
+  destruct (split TAB t') as [|p0 [|p1 [|p2 [|p3 l]]]] eqn:Es; try discriminate.
+  - destruct (split_single _ _ _ Es) as [-> Hn].
+    destruct (parse_u64 t') as [v'|] eqn:Ev'; [|discriminate]. cbn in H'. injection H' as <-. cbn [dsize].
+    unfold parse_drec in H. rewrite split_prepend in H by exact Hn.
+    destruct (split TAB r) as [|f0 fs] eqn:Er; [exfalso; eapply split_nonempty; eauto|].
+    destruct fs as [|f1 [|f2 [|f3 l]]]; try discriminate.
+    + destruct (parse_u64 (t' ++ f0)) as [v|] eqn:Ev; [|discriminate]. cbn in H. injection H as <-. cbn [dsize].
+      eapply parse_u64_prefix_le; eauto.
+    + destruct (parse_u64 (t' ++ f0)) as [v|] eqn:Ev; [|discriminate].
+      destruct (parse_u64 f1); [|discriminate]. destruct (parse_u64 f2); [|discriminate]. cbn in H. injection H as <-. cbn [dsize].
+      eapply parse_u64_prefix_le; eauto.
+  - destruct (parse_u64 p0); [|discriminate]. destruct (parse_u64 p1); [|discriminate]. destruct (parse_u64 p2); [|discriminate].
+    cbn in H'. injection H' as <-. cbn in T. discriminate.
+Qed.
+
+(** what [classify] of a non-empty text means *)
+Lemma classify_data_parse n t d : classify (ROk n t) = RData d -> parse_drec t = Ok d /\ t <> [].
+Proof.
+  unfold classify, parse_line. destruct t as [|c t']; [discriminate|]. destruct (starts_with CHAIN (c :: t')).
+  - destruct (parse_header (c :: t')); discriminate.
+  - destruct (parse_drec (c :: t')) as [d0|]; [|discriminate]. intros [= <-]. split; [reflexivity|discriminate].
+Qed.
+Lemma classify_blank_text n t : classify (ROk n t) = RBlank -> t = [].
+Proof.
+  unfold classify, parse_line. destruct t as [|c t']; [reflexivity|]. destruct (starts_with CHAIN (c :: t')).
+  - destruct (parse_header (c :: t')); discriminate.
+  - destruct (parse_drec (c :: t')); discriminate.
+Qed.
+
+(** a line followed by a stray CR never parses *)
+Lemma parse_u64_cr s : parse_u64 (s ++ [CR]) = None.
+Proof.
+  assert (H: forall a l, parse_digits a (l ++ [CR]) = None).
+  { intros a l. rewrite parse_digits_app. destruct (parse_digits a l); [|reflexivity]. reflexivity. }
+  unfold parse_u64. destruct s as [|b [|c r]]; cbn [app].
+  - reflexivity.
+  - destruct (b =? PLUS); [reflexivity|]. cbn [parse_digits]. destruct (is_digit b); [|reflexivity].
+    destruct (0 * 10 + (b - 48) <=? U64MAX); reflexivity.
+  - destruct (b =? PLUS); [apply (H 0 (c :: r))|apply (H 0 (b :: c :: r))].
+Qed.
+Lemma split_append_last d s c : c <> d -> exists init l, split d s = init ++ [l] /\ split d (s ++ [c]) = init ++ [l ++ [c]].
+Proof.
+  intros Hc. induction s as [|b r IH]; cbn [app split].
+  - assert (c =? d = false) as -> by (apply N.eqb_neq; exact Hc). cbn [split]. exists [], []. split; reflexivity.
+  - destruct IH as (init & l & E1 & E2). destruct (b =? d).
+    + exists ([] :: init), l. rewrite E1, E2. split; reflexivity.
+    + rewrite E1, E2. destruct init as [|f fs]; cbn [app].
+      * exists [], (b :: l). split; reflexivity.
+      * exists ((b :: f) :: fs), l. split; reflexivity.
+Qed.
